@@ -201,6 +201,13 @@ def ops : List (String × Op) := [
       match ks.mapM kindKey with
       | some keys => pure (showV (fun _ => "wf") (pconsModel (popOf op) keys))
       | none => throw "kind?"),
+  ("hier", do
+      let cls ← tok
+      let k ← pNat
+      match hierKey k with
+      | some chain =>
+          pure (showV (fun _ => "wf") (hierModel (if cls == "AnnotationCollection:empty" then .emptyAnnot else .located) chain))
+      | none => throw "kind?"),
   ("mksingle", do
       let s ← pInt; let e ← pInt; let st ← pStrand; let n ← pOptNat
       pure (showV showLocation (mkSingleP s e st n))),
